@@ -96,7 +96,12 @@ CtlPages ==
                       [key |-> <<"SP", "v", "SP">>, val |-> <<Call("T1", <<Pos(<<Txt(<<"sw">>)>>)>>)>>],
                       [key |-> <<"v">>, val |-> <<Txt(<<"*", "vee">>)>>]>>, hd, <<Txt(<<"dflt", "SP">>)>>)>> :
            v \in Values, hd \in BOOLEAN }
-Pages == CallPages \cup CtlPages
+FT == <<[k |-> "ft"]>>
+FallPages == { <<Switch(v, <<[key |-> <<"a">>, val |-> FT], [key |-> <<"SP", "v">>, val |-> FT],
+                              [key |-> <<"c">>, val |-> <<Call("T1", <<Pos(<<Txt(<<"grp">>)>>)>>)>>],
+                              [key |-> <<"b">>, val |-> FT], [key |-> <<"d">>, val |-> <<Txt(<<"SP", "two">>)>>]>>, hd, <<Txt(<<"dflt">>)>>)>> :
+               v \in Values \cup {<<Txt(<<"b">>)>>, <<Txt(<<"c">>)>>, <<Txt(<<"d">>)>>}, hd \in BOOLEAN }
+Pages == CallPages \cup CtlPages \cup FallPages
 
 (* ---------------- generator ---------------- *)
 VARIABLES lib, page
